@@ -29,6 +29,8 @@ type Case struct {
 	UriForm  string `json:"x_forwarded_uri_form,omitempty"` // "" (origin form) | authority | absolute
 	// FwdMethod: value of X-Forwarded-Method when not the default DELETE (extension methods, other casing)
 	FwdMethod string `json:"x_forwarded_method_value,omitempty"`
+	// FwdNoFor: the Forwarded header carries no for= parameter (by=...;proto=...;host=...)
+	FwdNoFor bool `json:"forwarded_without_for,omitempty"`
 }
 
 var trustedMenu = map[string]*[]string{
@@ -96,6 +98,7 @@ func catalogue() *config.MechanismPrototypes {
 				"X-V-Path":     `{{ .Request.URL.Path }}`,
 				"X-V-Rawquery": `{{ .Request.URL.RawQuery }}`,
 				"X-V-Ips":      `{{ .Request.ClientIPAddresses | join "," }}`,
+				"X-V-Hdrs":     `{{ .Request.Headers | toJson }}`,
 			}}},
 			{ID: "ruleid", Type: "header", Config: config.MechanismConfig{"headers": map[string]any{"X-Rule": "none"}}},
 		},
@@ -312,6 +315,10 @@ func (cs *Case) request(withHeaders bool) *hx.Req {
 				value = cs.FwdMethod
 			}
 
+			if h.name == "Forwarded" && cs.FwdNoFor {
+				value = "by=9.9.9.1;proto=https;host=evil.example"
+			}
+
 			r.Header = append(r.Header, [2]string{spell(h.name, cs.Spelling), value})
 			if cs.Repeated {
 				r.Header = append(r.Header, [2]string{spell(h.name, cs.Spelling), h.alt})
@@ -331,7 +338,7 @@ func observe(apps *hx.Apps, service string, r *hx.Req) (view, *hx.Resp) {
 		resp = apps.DoDecision(r)
 		v["allowed"] = fmt.Sprint(resp.Allowed)
 
-		for _, k := range []string{"X-Rule", "X-V-Method", "X-V-Scheme", "X-V-Host", "X-V-Path", "X-V-Rawquery", "X-V-Ips"} {
+		for _, k := range []string{"X-Rule", "X-V-Method", "X-V-Scheme", "X-V-Host", "X-V-Path", "X-V-Rawquery", "X-V-Ips", "X-V-Hdrs"} {
 			v[k] = resp.Header.Get(k)
 		}
 	} else {
@@ -339,7 +346,7 @@ func observe(apps *hx.Apps, service string, r *hx.Req) (view, *hx.Resp) {
 		v["allowed"] = fmt.Sprint(resp.Allowed)
 
 		if len(resp.Upstream) > 0 {
-			for _, k := range []string{"X-Rule", "X-V-Method", "X-V-Scheme", "X-V-Host", "X-V-Path", "X-V-Rawquery", "X-V-Ips"} {
+			for _, k := range []string{"X-Rule", "X-V-Method", "X-V-Scheme", "X-V-Host", "X-V-Path", "X-V-Rawquery", "X-V-Ips", "X-V-Hdrs"} {
 				v[k] = resp.Upstream[0].Header.Get(k)
 			}
 
@@ -381,9 +388,26 @@ func subsetNames(cs *Case) string {
 	return strings.Join(n, "+")
 }
 
+// canary is the request served just before the judged one (by another peer, with headers of its own): nothing of it may
+// show up in the view of the judged request
+func canary() *hx.Req {
+	return &hx.Req{Method: "GET", Scheme: "http", Host: "svc.local", RawPath: "/x", RemoteAddr: "10.0.0.1:4099", Header: [][2]string{
+		{"X-Canary", "previous-request"}, {"X-Forwarded-Host", "previous-request.example"}, {"Cookie", "previous=request"},
+	}}
+}
+
 func judge(c *engine.Ctx, f *fixtures, cs *Case) {
 	apps := f.apps[cs.Trusted]
+
+	_, _ = observe(apps, cs.Service, canary())
+
 	with, resp := observe(apps, cs.Service, cs.request(true))
+
+	if strings.Contains(with.String(), "previous-request") || strings.Contains(with.String(), "previous=request") {
+		c.Violation("request-sees-data-of-the-request-served-before/"+cs.Service,
+			fmt.Sprintf("%+v: the view of this request contains values of the request served before it: %s", *cs, with), cs)
+	}
+
 	trusted := isTrusted(listFor(cs.Trusted, cs.Service), cs.Peer)
 
 	c.Eval(1)
@@ -468,6 +492,15 @@ func judge(c *engine.Ctx, f *fixtures, cs *Case) {
 	var ips []string
 
 	switch {
+	case has(cs, 0) && cs.FwdNoFor:
+		// a present Forwarded header defines the client addresses; which entry it contributes without a for= parameter is
+		// not settled, but X-Forwarded-For does not take over
+		ips = nil
+
+		if strings.Contains(with["X-V-Ips"], "8.8.8.8") || strings.Contains(with["X-V-Ips"], "8.8.4.4") {
+			c.Violation("trusted-peer-override-wrong/X-V-Ips/"+cs.Service+"/x-forwarded-for-used-although-forwarded-is-present",
+				fmt.Sprintf("%+v headers=%s: client addresses %q", *cs, subsetNames(cs), with["X-V-Ips"]), cs)
+		}
 	case has(cs, 0):
 		ips = []string{"9.9.9.9"}
 		if cs.Repeated {
@@ -564,7 +597,7 @@ func cases(quick bool) []Case {
 				for _, sp := range spellings {
 					for _, rep := range reps {
 						for _, svc := range []string{"decision", "proxy"} {
-							out = append(out, Case{t, p, s, sp, rep, svc, "", ""})
+							out = append(out, Case{Trusted: t, Peer: p, Subset: s, Spelling: sp, Repeated: rep, Service: svc})
 						}
 					}
 				}
@@ -581,7 +614,7 @@ func cases(quick bool) []Case {
 				}
 
 				for _, svc := range []string{"decision", "proxy"} {
-					out = append(out, Case{t, p, s, "canonical", false, svc, "", ""})
+					out = append(out, Case{Trusted: t, Peer: p, Subset: s, Spelling: "canonical", Service: svc})
 				}
 			}
 		}
@@ -617,12 +650,26 @@ func cases(quick bool) []Case {
 		}
 	}
 
+	// Forwarded without a for= parameter next to X-Forwarded-For
+	for _, peer := range []string{"10.0.0.1:4711", "10.9.9.9:4711"} {
+		for s := 0; s < 1<<len(fwdHeaders); s++ {
+			if s&1 == 0 {
+				continue
+			}
+
+			for _, svc := range []string{"decision", "proxy"} {
+				out = append(out, Case{Trusted: "10.0.0.1", Peer: peer, Subset: s, Spelling: "canonical", Service: svc, FwdNoFor: true})
+			}
+		}
+	}
+
 	if quick {
 		// a slice of the spelling / repetition dimensions
 		for _, sp := range []string{"lower", "mixed"} {
 			for s := 0; s < 1<<len(fwdHeaders); s += 5 {
 				for _, svc := range []string{"decision", "proxy"} {
-					out = append(out, Case{"10.0.0.1", "10.9.9.9:4711", s, sp, true, svc, "", ""}, Case{"10.0.0.1", "10.0.0.1:4711", s, sp, true, svc, "", ""})
+					out = append(out, Case{Trusted: "10.0.0.1", Peer: "10.9.9.9:4711", Subset: s, Spelling: sp, Repeated: true, Service: svc},
+						Case{Trusted: "10.0.0.1", Peer: "10.0.0.1:4711", Subset: s, Spelling: sp, Repeated: true, Service: svc})
 				}
 			}
 		}
